@@ -11,10 +11,10 @@
         impossible locations in add_point_to_triangle, from add_point and refine) are in none: unreachable.
         Under [WF] (preserved by everything, see C08) the neighbour look-ups 67, 73 are unreachable; under [CNT]
         the usize underflow 61 is unreachable in split_triangle / flip_diagonal / restore_delaunay.
-        Data-dependent sites are REACHABLE in the faithful model and in the crate: [C09_mesh_polygon_panics_refuted]
+        Data-dependent sites are REACHABLE in the faithful model and in the crate: [C09_mesh_polygon_w3_now_ok] (regression witness of fix 361bbb9)
         (site 64 from mesh_polygon on a plain triangle; 87 and 91 likewise, see NOTES.md).
     (c) Success for well-conditioned polygons: needs the two-ears theorem -- not proved; validated on the generated
-        stream by the oracle.  It is FALSE with holes: [C09_wellcond_err_refuted]. *)
+        stream by the oracle.  Regression witness of fix df28df6: [C09_wellcond_w5_now_ok]. *)
 From Coq Require Import ZArith List Bool Floats.
 Set Warnings "-inexact-float".
 From G3 Require Import Model.Num Model.NumF Model.Base Model.Vec Model.Segment Model.Triangle Model.Loop Model.Polygon Model.Triangulation
@@ -96,16 +96,20 @@ Proof.
   repeat split; intros ->; discriminate.
 Qed.
 
-(** (b) a data-dependent site is reachable: mesh_polygon on the triangle (0,0) (1,0) (0.3,0.8) with
-    max_area = 0.4/50, max_aspect_ratio = 3 panics with "... don't share a segment" *)
-Theorem C09_mesh_polygon_panics_refuted :
-  exists (P : Poly float) (max_area max_ar : float) (fuel : nat), mesh_polygon fuel P max_area max_ar = Panic 64%N.
-Proof. exists w3_poly, (0.4 / 50)%float, 3%float, 4000. exact w3_mesh_polygon_panics. Qed.
+(** (b) regression witness: mesh_polygon on the triangle (0,0) (1,0) (0.3,0.8) with max_area = 0.4/50,
+    max_aspect_ratio = 3 panicked with "... don't share a segment" (site 64) before fix 361bbb9 (refinement steps
+    mutated the mesh before failing); it now returns Ok with every slot live *)
+Theorem C09_mesh_polygon_w3_now_ok :
+  exists (P : Poly float) (max_area max_ar : float) (fuel : nat) (M : Mesh float),
+    mesh_polygon fuel P max_area max_ar = Ok (M, RDone) /\ forallb tp_valid (tris M) = true.
+Proof. destruct w3_mesh_polygon_now_ok as (M & H). exists w3_poly, (0.4 / 50)%float, 3%float, 4000, M. exact H. Qed.
 
-(** (c) is false with holes: the unit square with a small pentagonal hole (edges > 0.1, clearance > 0.2) *)
-Theorem C09_wellcond_err_refuted :
-  exists P : Poly float, from_polygon P = Err 31%N /\ length (pinner P) = 1.
-Proof. exists w5_poly. exact w5_from_polygon_err. Qed.
+(** (c) regression witness: the unit square with a small pentagonal hole (edges > 0.1, clearance > 0.2) made
+    from_polygon return Err "non-coplanar" before fix df28df6 (Loop3D::push duplicated a vertex when the outline went
+    straight back, NaN normal); it is Ok now (what it returns is C01's business: see C01's known finding) *)
+Theorem C09_wellcond_w5_now_ok :
+  exists (P : Poly float) M, from_polygon P = Ok M /\ length (pinner P) = 1.
+Proof. destruct w5_from_polygon_ok as (M & H1 & _ & H3). exists w5_poly, M. split; assumption. Qed.
 
 (** non-vacuity *)
 Example C09_nonvacuous : exists M, from_polygon w4_poly = Ok M /\ length (tris M) = 2 /\ nvalid M = 2.
